@@ -36,13 +36,22 @@ UNDEF = _Undef()
 
 class SV:
     """Symbolic value: z3 term plus optional metadata."""
-    __slots__ = ("e", "d", "box", "w")
+    __slots__ = ("_e", "d", "box", "w", "s")
 
-    def __init__(self, e, d=None, box=None, w=None):
-        self.e = e      # z3 expr: Bool | BitVec | Int | Real | FP
+    def __init__(self, e, d=None, box=None, w=None, s=None):
+        self._e = e     # z3 expr: Bool | BitVec | Int | Real | FP  (Int mode: unsigned-canonical value)
         self.d = d      # {input name: z3 Real expr} forward-mode derivative (real mode)
         self.box = box  # when a real-mode float travels through an integer register
         self.w = w      # bit width for Int-mode integers
+        self.s = s      # Int mode: signed-view term when known (keeps nsw arithmetic free of wrap ites)
+
+    @property
+    def e(self):
+        e = self._e
+        if e is None and self.s is not None:
+            n = self.w or 64
+            e = self._e = z3.If(self.s < 0, self.s + (1 << n), self.s)
+        return e
 
     def __repr__(self):
         s = str(self.e)
@@ -204,12 +213,15 @@ class Engine:
         self.init_allocs = {}
         self._feas_cache = {}
         self._vars_cache = {}
+        self._keep = []
         self.errvars = []       # rounded-mode error variables (name, bound)
         self.side = []          # global side constraints (atoms characterisations) as (z3 bool)
         self.path_results = []
         self.ad_vars = set()
+        self.shard = None
         self.atom_cache = {}
         self.concrete_checks = []
+        self.simplified = []
         self.cur_entry = None
         from . import models
         models.install(self)
@@ -306,6 +318,8 @@ class Engine:
             return self.const_expr(pay)
         if kind == "cstr":
             return list(pay)
+        if kind == "meta":
+            return None
         raise Inconclusive("constant kind %r" % kind)
 
     def zero_value(self, ty):
@@ -706,6 +720,8 @@ class Engine:
         if self.imode == "bv":
             n = e.size()
             return z3.SignExt(64 - n, e) if n < 64 else e
+        if sv.s is not None:
+            return sv.s
         w = sv.w or 64
         return z3.If(e >= (1 << (w - 1)), e - (1 << w), e)
 
@@ -714,6 +730,8 @@ class Engine:
         e = sv.e
         if self.imode == "bv":
             return z3.BV2Int(e, is_signed=True)
+        if sv.s is not None:
+            return sv.s
         w = sv.w or 64
         return z3.If(e >= (1 << (w - 1)), e - (1 << w), e)
 
@@ -733,7 +751,7 @@ class Engine:
         i = e.get_id()
         r = self._vars_cache.get(i)
         if r is not None:
-            return r
+            return r[1]
         vs = set()
         flags = set()
         seen = set()
@@ -767,7 +785,7 @@ class Engine:
                         flags.add("nl")
                 stack.extend(x.children())
         r = (frozenset(vs), frozenset(flags))
-        self._vars_cache[i] = r
+        self._vars_cache[i] = (e, r)     # keeps e alive: z3 recycles ast ids of freed terms
         return r
 
     def pick_logic(self, flags):
@@ -824,6 +842,7 @@ class Engine:
         self.stats["feas_time"] += time.time() - t0
         r = True if res == "sat" else False if res == "unsat" else None
         self._feas_cache[key] = r
+        self._keep.append((rel, cond))
         if r is True:
             self._last_model = model
         return r
@@ -886,12 +905,16 @@ class Engine:
             if xa is None or xb is None:
                 raise Inconclusive("ite between boxed real and integer")
             return SV(None, box=self.ite(c, xa, xb, ir.DOUBLE))
+        if self.imode == "int" and n > 1:
+            sa = a.s if isinstance(a, SV) else (to_signed(a, n) if isinstance(a, int) else None)
+            sb = b.s if isinstance(b, SV) else (to_signed(b, n) if isinstance(b, int) else None)
+            if sa is not None and sb is not None and (isinstance(a, SV) and a._e is None or isinstance(b, SV) and b._e is None):
+                return SV(None, w=n, s=z3.If(c, sa, sb))
         ea, eb = self.iterm(a, n), self.iterm(b, n)
         return SV(z3.If(c, ea, eb), w=n)
 
     def ite_ptr(self, c, a, b):
         # pointers: both concrete -> keep as a guarded pointer
-        from .models import GuardedPtr
         return GuardedPtr(c, a, b)
 
     # ------------------------------------------------------------------ term coercions
@@ -1009,7 +1032,7 @@ class Engine:
 
     def concretize(self, st, cz, work):
         """enumerate the feasible values of a symbolic integer; fork one state per value"""
-        e = cz.sv.e
+        e = cz.sv.s if cz.sv.s is not None else cz.sv.e
         vals = []
         extra = []
         limit = self.budget.get("concretize", 64)
@@ -1036,9 +1059,20 @@ class Engine:
             extra.append(e != v)
             if len(vals) > limit:
                 raise Inconclusive("more than %d feasible values for symbolic %s" % (limit, cz.what))
+        vals.sort()
+        sh = st.user.get("shard", self.shard)
+        if sh is not None and sh[1] > 1:
+            i, n = sh
+            k = len(vals)
+            if k >= n:
+                vals = vals[i::n]
+                st.user["shard"] = (0, 1)
+            elif k > 0:
+                g = i % k
+                st.user["shard"] = (i // k, len(range(g, n, k)))
+                vals = [vals[g]]
         if not vals:
             raise PathEnd("killed")
-        vals.sort()
         self.stats["forks"] += len(vals) - 1
         others = []
         for v in vals[1:]:
@@ -1056,13 +1090,15 @@ class Engine:
         """value must be a concrete python int; symbolic ones are concretised by forking"""
         if isinstance(v, int):
             return v
-        if isinstance(v, SV) and v.e is not None:
-            h = st.hints.get(v.e.get_id())
+        if isinstance(v, SV) and v.box is None:
+            t = v.s if v.s is not None else v.e
+            mask = (1 << (v.w or (t.size() if z3.is_bv(t) else 64))) - 1
+            h = st.hints.get(t.get_id())
             if h is not None:
-                return h
-            sv = z3.simplify(v.e)
+                return h & mask
+            sv = z3.simplify(t)
             if z3.is_int_value(sv) or z3.is_bv_value(sv):
-                return sv.as_long()
+                return sv.as_long() & mask
             raise Concretize(v, what)
         raise Inconclusive("need concrete %s, got %r" % (what, v))
 
@@ -1168,7 +1204,6 @@ class Engine:
 
     def op_load(self, st, fr, ins, work):
         p = self.val(st, fr, ins.a[0])
-        from .models import GuardedPtr
         if isinstance(p, GuardedPtr):
             v = p.load(self, st, ins.ty)
         else:
@@ -1181,7 +1216,6 @@ class Engine:
     def op_store(self, st, fr, ins, work):
         v = self.val(st, fr, ins.a[0])
         p = self.val(st, fr, ins.a[1])
-        from .models import GuardedPtr
         if isinstance(p, GuardedPtr):
             p.store(self, st, ins.ty, v)
         else:
@@ -1201,7 +1235,6 @@ class Engine:
             elif v is UNDEF:
                 raise Inconclusive("gep with undef index")
             idx.append(v)
-        from .models import GuardedPtr
         if isinstance(base, GuardedPtr):
             fr.locals[ins.dest] = base.map(lambda b: self.gep(b, ins.ty, idx))
         else:
@@ -1451,5 +1484,7 @@ NOTHING = object()
 FLOAT_T = ir.FLOAT
 DOUBLE_T = ir.DOUBLE
 
+from . import models as _models  # noqa: E402
+GuardedPtr = _models.GuardedPtr
 from . import arith  # noqa: E402  (adds arithmetic methods and the dispatch table)
 arith.install(Engine)
